@@ -63,7 +63,9 @@ def binary_stochastic_quantize(v: jnp.ndarray,
   v = jnp.nan_to_num((v - v_min) / (v_max - v_min))
   v = jnp.maximum(0., jnp.minimum(v, 1.))
   rand = jax.random.uniform(key=rng, shape=v.shape)
-  return jnp.where(rand > v, v_min, v_max)
+  # rand is in [0, 1): `>=` keeps v == 0 at v_min even when rand is exactly 0,
+  # and v == 1 still always maps to v_max.
+  return jnp.where(rand >= v, v_min, v_max)
 
 
 def uniform_stochastic_quantize(v: jnp.ndarray,
